@@ -183,7 +183,7 @@ let handle (case : string list) (impl : string list) : string * string =
      | st :: fl ->
        let first = (match st with "ok" -> 0 | "err-tojson" -> 1 | _ -> 2) in
        ("skip typed-observation",
-        show_verdict (judge_ty (n_of_int first) (flag "eq" fl) (flag "bytes" fl) (flag "norm" fl) (flag "fix" fl) (flag "lang" fl) (flag "negint" fl)))
+        show_verdict (judge_ty (n_of_int first) (flag "eq" fl) (flag "bytes" fl) (flag "norm" fl) (flag "fix" fl) (flag "lang" fl) (flag "negint" fl) (flag "unsorted" fl)))
      | [] -> ("skip typed-observation", "fails:-"))
   | _ -> ("driver-badcase", "na")
 
